@@ -148,6 +148,9 @@ pub fn finish(shard: &mut Shard, total: &Stats) {
     for ((op, kind), n) in &total.op_results {
         shard.count(&format!("op:{}:{}", op, kind), *n);
     }
+    shard.count("read_only_transactions_held_open_across_write_transactions", total.pinned_readers_opened);
+    shard.count("commits_made_while_a_reader_pinned_an_older_snapshot", total.commits_with_a_pinned_reader);
+    shard.count("pinned_reader_histories_cut_short_by_the_growth_guard(no verdict)", total.pinned_histories_cut_short_by_the_growth_guard);
     shard.count("ops", total.ops);
     shard.count("commits", total.commits);
     shard.count("rollbacks", total.rollbacks);
@@ -245,6 +248,43 @@ pub fn run(ctx: &Ctx, mode: Mode) -> Shard {
         let out = exec::run_history(&h, &cfg, &path);
         let _ = std::fs::remove_file(&path);
         absorb(&mut shard, ctx, mode, &h, &out, &mut total, "grammar");
+    }
+
+    // ---- 1b. grammar histories with read-only transactions held open across the write transactions
+    // (pre-sized file, no reopen).  What a commit writes to the file differs when a reader pins an older
+    // snapshot: freed pages stay pending over several commits, the free-list page has to carry every
+    // pending generation, nothing is reused - seeded change C05-n persisted only the committing
+    // transaction's own pending pages, which is the whole list whenever no reader is open.
+    if mode != Mode::C07 {
+        crate::c03::install_no_grow_handler();
+        let n_pinned = ctx.scale(if ctx.thorough() { 3000 } else { 320 });
+        for i in 0..n_pinned {
+            let profile = (i % gen::N_PROFILES as u64) as u8;
+            let mut g = GenCfg::default_for(ps, profile);
+            g.p_reopen = 0;
+            g.p_misuse = 0;
+            g.n_txs = (4, 10);
+            g.ops_per_tx = (3, 24);
+            g.max_value = (3 * ps) as usize;
+            let mut h = gen::gen_history(&mut rng, &g);
+            for t in h.txs.iter_mut() {
+                t.reopen = false;
+            }
+            let n = h.txs.len();
+            // one long-lived reader from the first third on, and one or two short ones
+            let a = rng.usize(n / 3 + 1);
+            h.pins.push((a, (a + 2 + rng.usize(n)).min(n - 1)));
+            for _ in 0..(1 + rng.usize(2)) {
+                let a = rng.usize(n);
+                h.pins.push((a, (a + rng.usize(3)).min(n - 1)));
+            }
+            h.num_pages = exec::presize_for_pins(&h);
+            h.origin = format!("{} + pinned readers {:?}", h.origin, h.pins);
+            let path = scratch.fresh("p");
+            let out = exec::run_history(&h, &cfg, &path);
+            let _ = std::fs::remove_file(&path);
+            absorb(&mut shard, ctx, mode, &h, &out, &mut total, "pinned-readers");
+        }
     }
 
     // ---- 2. shape-directed subsets (seed independent; partitioned over shards)
